@@ -140,14 +140,15 @@ def split_packets(stream):
 KEXINIT_FIELDS = ('kex', 'key', 'enc_c2s', 'enc_s2c', 'mac_c2s', 'mac_s2c', 'comp_c2s', 'comp_s2c', 'lang_c2s', 'lang_s2c')
 
 
-def kexinit(kex, key, enc, mac, comp=(b'none',), lang=(b'',), enc_c=None, mac_c=None, comp_c=None, cookie=b'\x00' * 16, follows=False, reserved=0):
+def kexinit(kex, key, enc, mac, comp=(b'none',), lang=(b'',), enc_c=None, mac_c=None, comp_c=None, cookie=b'\x00' * 16, follows=False, reserved=0, lang_c=None):
     """Build a KEXINIT payload (type byte included).  List arguments are iterables of names
     (bytes/str) or a ready-made bytes value for the whole name-list body."""
     enc_c = enc if enc_c is None else enc_c
     mac_c = mac if mac_c is None else mac_c
     comp_c = comp if comp_c is None else comp_c
+    lang_c = lang if lang_c is None else lang_c
     out = b'\x14' + cookie
-    for l in (kex, key, enc_c, enc, mac_c, mac, comp_c, comp, lang, lang):
+    for l in (kex, key, enc_c, enc, mac_c, mac, comp_c, comp, lang_c, lang):
         out += sstr(l) if isinstance(l, (bytes, bytearray)) else namelist(l)
     out += bytes([1 if follows else 0]) + u32(reserved)
     return out
